@@ -75,13 +75,9 @@ struct PicF {
     f: Formatter,
 }
 fn compile(st: &mut Stats, text: String, toks: Vec<Tok>) -> Option<PicF> {
-    match Formatter::try_new(&text) {
-        Ok(f) => Some(PicF { text, toks, f }),
-        Err(_) => {
-            st.skipped += 1; // a documented picture the library refuses is C19's business
-            None
-        }
-    }
+    // the picture is a documented lossless one (re-tokenised by the reference): refusing it breaks the round trip
+    let f = compile_picture(st, &text, Some("C06/lossless-picture-rejected"))?;
+    Some(PicF { text, toks, f })
 }
 
 pub const FIXED_DATE_PICS: &[&str] = &["YYYY-MM-DD", "DD/MM/YYYY", "YYYYMMDD", "DAY, DD MONTH YYYY", "DY YYYY.MM.DD DDD", "D YYYY MON DD", "YYYY DDD", "Month dd, yyyy"];
@@ -92,6 +88,7 @@ pub fn run(ctx: &Ctx, st: &mut Stats) {
     let npics = ctx.tier.pick(6, 60, 400);
     let mut rng = Rng::new(mix(ctx.seed, 0xC06));
     let mut pools: Vec<Vec<PicF>> = vec![];
+    st.stratum("lossless pictures (compiled inside the panic boundary)", false);
     for ty in ALL_TY {
         let mut v: Vec<PicF> = vec![];
         if ty == Ty::Date {
@@ -155,12 +152,10 @@ pub fn run(ctx: &Ctx, st: &mut Stats) {
             // a fresh picture
             match gen_picture(rng, ty, true) {
                 Some(g) => {
-                    if let Ok(f) = Formatter::try_new(&g.text) {
+                    if let Some(f) = compile_picture(st, &g.text, Some("C06/lossless-picture-rejected")) {
                         let tag = interval_tag(ty, &g.toks);
                         let h = mix(hash64(g.text.as_bytes()), hash64(v.show().as_bytes()));
                         st.eval_h(h, &R { v, pic: &g.text, f: &f, tag }, check);
-                    } else {
-                        st.skipped += 1;
                     }
                 }
                 None => st.skipped += 1,
@@ -193,9 +188,8 @@ pub fn replay(v: &Value, st: &mut Stats) -> bool {
     };
     let p = jstr(v, "picture");
     let tag = jstr(v, "tag");
-    match Formatter::try_new(&p) {
-        Ok(f) => st.eval(&R { v: val, pic: &p, f: &f, tag: &tag }, check),
-        Err(_) => return false,
+    if let Some(f) = compile_picture(st, &p, Some("C06/lossless-picture-rejected")) {
+        st.eval(&R { v: val, pic: &p, f: &f, tag: &tag }, check);
     }
     true
 }
